@@ -162,7 +162,7 @@ def install_search_log():
 def rule_family(rule, meta):
     """(model rule name, family) of a live rule object, from its class hierarchy / Helpers / the regenerated rule rows:
     closure | frame | none | newWorld | eachWorld | unmodelled:<why>"""
-    from pytableaux.proof.helpers import NodesWorlds
+    from pytableaux.proof.helpers import NodesWorlds, PredNodes
     name = type(rule).__name__
     if isinstance(rule, ClosingRule):
         return 'closure', 'closure'
@@ -190,7 +190,9 @@ def rule_family(rule, meta):
         if row is None or row.get('witness') != 'none':
             return name, f'unmodelled:family-mismatch:none:{row and row.get("witness")}'
         return name, 'none'
-    return name, 'unmodelled:' + ('identity' if name == 'IdentityIndiscernability' else 'other')
+    if name == 'IdentityIndiscernability' and PredNodes in rule.helpers:
+        return name, 'ident'
+    return name, 'unmodelled:other'
 
 
 class _Entry:
